@@ -13,7 +13,7 @@ import (
 )
 
 var serveExplain = map[string]string{
-	"C02": "Structural necessary conditions in the server's per-connection loop, decided for every path of the loop by exhaustive exploration of a finite abstraction (booleans, nil-ness, rule event bits): (R1) a request with 'Expect: 100-continue' whose body was not read (ExpectHandler / ContinueHandler rejection) is answered with Connection: close and never followed by another iteration; (R2) on every path from the handler to the next iteration the code has established, on the request that was actually served (not on a ctx swapped in by the timeout path), that there is no connection-backed body stream or that requestStream.fullyRead() is true - otherwise the close decision is true; the stream object is only released after that. (R3) a length-limited reader over the connection that is handed to a parser which may stop early (multipart pre-parse) is drained before success is reported; (R4) the flag behind fullyRead() for chunked bodies is raised only after the trailer section was read and its error examined, in every function that sets it; (R-pool) the pooled stream object starts clean: each of its fields (chunk remainder, byte count, end-of-body flag, declared length ...) is assigned on every path of its release or of its acquire function, so a body is never decoded with the leftovers of another connection's body. (R-uar) after a call that gives the request stream held in a field back to its pool (releaseRequestStream, or a routine that passes the value on to it) no path reaches a use of a stream taken from that field before the field is assigned again - 'was the body read to its end' must be asked before the release. Not decided: the exact byte offset at which the next request starts for all inputs.",
+	"C02": "Structural necessary conditions in the server's per-connection loop, decided for every path of the loop by exhaustive exploration of a finite abstraction (booleans, nil-ness, rule event bits): (R1) a request with 'Expect: 100-continue' whose body was not read (ExpectHandler / ContinueHandler rejection) is answered with Connection: close and never followed by another iteration; (R2) on every path from the handler to the next iteration the code has established, on the request that was actually served (not on a ctx swapped in by the timeout path), that there is no connection-backed body stream or that requestStream.fullyRead() is true - otherwise the close decision is true; the stream object is only released after that. (R3) a length-limited reader over the connection that is handed to a parser which may stop early (multipart pre-parse) is drained before success is reported; (R4) the flag behind fullyRead() for chunked bodies is raised only after the trailer section was read and its error examined, in every function that sets it; (R-pool) the pooled stream object starts clean: each of its fields (chunk remainder, byte count, end-of-body flag, declared length ...) is assigned on every path of its release or of its acquire function, so a body is never decoded with the leftovers of another connection's body. (R-uar) after a call that gives the request stream held in a field back to its pool (releaseRequestStream, or a routine that passes the value on to it) no path reaches a use of a stream taken from that field before the field is assigned again - 'was the body read to its end' must be asked before the release. (R5) the serve loop gives the connection reader back between requests only on paths that found StreamRequestBody false or an error - a body stream reads the rest of the body through that reader. Not decided: the exact byte offset at which the next request starts for all inputs.",
 	"C10": "Structural necessary conditions of the keep-alive decision in the serve loop: (R1) the condition guarding SetConnectionClose depends (through phis, && / ||, and helper functions) on each documented source: DisableKeepalive, request and response Connection: close, MaxRequestsPerConn, CloseOnShutdown+stop, Expect/Continue rejection, unread streamed body; (R2) on every path: decision true => Connection: close is set on the response object that is written and no further iteration follows; decision false on a non-HTTP/1.1 request => Connection: keep-alive is set; (R2d) the loop is left after a written response, on the server's own decision, only when that response carried Connection: close; (R3) the decision does not read per-request bookkeeping from a ctx that was swapped in after the handler (timeout path); (R4) every comparison of a header value with the 'close' token - in the request and response head parsers and in the header setters - is made by a case-insensitive, list-aware matcher, never by an exact byte comparison, so 'Connection: Close' and 'keep-alive, close' count as close on both the server and the client side, and while a head is parsed a store to the close flag can only raise it (several Connection lines form one list); (R5) in the client transport the decision to pool a connection whose body is handed out as a stream is taken from a value computed when the response arrived - the boolean captured by the stream-close callback depends on the response's Connection: close - and not only from the caller-owned response header as it looks when the stream is closed. (R6) every routine the list scanner uses to trim a list member compares bytes with both optional-whitespace characters, SP and HTAB. Not decided: what the matcher accepts as token separators, client side reuse beyond the parsed flag.",
 	"C11": "Structural necessary conditions of 'no state leaks between requests': (E7) every leaf field of Request, Response, RequestHeader, ResponseHeader, URI, Args, Cookie and RequestCtx is assigned (or known nil, or reset through its pointee) on every path of the type's reset method including callees, or is in a table of reasoned exemptions (scratch buffers, configuration, self pointers) - a newly added field is a violation until reset or exempted; (R-loop) every variable of the serve loop that survives an iteration is re-assigned before it is read in a later iteration on every path, or the loop provably ends; (R-reset) every path from the handler to the next iteration passes Request.Reset and Response.Reset; (R-ctx) every field of RequestCtx that a handler can set through an exported method and that the serve loop reads (hijack handler, no-response switch, timeout response) is cleared, found zero, or left behind with a replaced ctx on every path to the next request - neither Request.Reset nor Response.Reset touches them; (R-loop-owned, R-pool, R-scratch) the reasons given for exemptions are checked too: a field the serve loop owns is assigned by it before every handler dispatch, every field of a pooled helper object is assigned by its release or its acquire function, and no function uses the old content or length of a scratch buffer. (R-slot) a recycled entry of a key/value array (query args, cookies - the arrays are only truncated by Reset) has its key and value stored before it is kept, directly or by a scanner whose producing returns store them on every path. Not decided: that getters return exactly what the current request sent.",
 	"C14": "The sequence of ConnState values the serve loop reports, decided on every path of the loop as an automaton: StateActive only follows New/Idle, StateIdle only follows Active, the handler and the response write happen in Active, an iteration that continues ends in Idle, and StateActive is only reported on a path on which a read of at least one byte succeeded; (R3) every function that runs the serve loop itself and reports states (ServeConn) reports StateNew before serving and, on every path to its return after StateNew was reported (served or turned away), exactly one terminal state - StateHijacked exactly when the loop returned errHijacked, StateClosed otherwise. (R4) at every call of the ConnState hook the connection argument is the enclosing function's own parameter, or a value taken out of it only through embedded fields that are assigned solely while their owner is private (so it is one stable value for the connection's life): all reports for one connection carry one value. (R5) a pooled per-IP connection wrapper is returned to its pool only by a routine that is not one of its own methods, and every call of that routine is dominated by a report of StateClosed for the same value - the hook knows a connection by its value, which must not be reused before its previous life was reported closed. Not decided: the reports made by the worker pool (C13.R2 decides its terminal action) and cross-goroutine ordering.",
@@ -70,6 +70,7 @@ func init() {
 				streamConsumedRule(p, r)
 				pooledHelperRule(p, r, "requestStream")
 				streamNotUsedAfterRelease(p, r)
+				readerReleaseRule(p, r, "C02")
 			}
 		}})
 	}
@@ -2471,4 +2472,122 @@ func embeddedConnStable(p *Prog, fv *types.Var) bool {
 		}
 	}
 	return true
+}
+
+// readerReleaseRule (C01.R7 / C02.R5): between two requests the serve loop may give the connection's buffered reader
+// back to its pool (ReduceMemoryUsage). That is only harmless when nothing is lost and nobody still reads through
+// it: on every path to a release inside the loop an error was found (the connection ends), or the reader was found
+// empty (br.Buffered() == 0) - bytes of the next pipelined request would be dropped with it and parsing would resume
+// in the middle of a message (C01) - and request bodies are not streamed (StreamRequestBody found false) - a body
+// stream handed to the handler reads the rest of the body through that very reader (C02).
+func readerReleaseRule(p *Prog, r *Report, prop string) {
+	fn, hcall, header, why := findServeLoop(p)
+	rel := p.Func("releaseReader")
+	if fn == nil || rel == nil {
+		r.Undecided("R-reader", "serve loop / releaseReader", why)
+		return
+	}
+	_ = hcall
+	const (
+		bErr uint64 = 1 << iota
+		bEmpty
+		bNotStream
+	)
+	type tal struct {
+		n, bad int
+		wit    []string
+		pos    token.Pos
+	}
+	emptyT, streamT := &tal{}, &tal{}
+	x := NewExplorer(p, fn, Hooks{
+		Instr: func(x *Explorer, st *State, in ssa.Instruction) {
+			c, ok := in.(ssa.CallInstruction)
+			if !ok {
+				return
+			}
+			if c.Common().StaticCallee() == rel && inLoop(header, in.Block()) {
+				for _, t := range []struct {
+					t   *tal
+					bit uint64
+				}{{emptyT, bEmpty}, {streamT, bNotStream}} {
+					t.t.n++
+					if !st.Has(bErr) && !st.Has(t.bit) {
+						t.t.bad++
+						if t.t.wit == nil {
+							t.t.wit = x.Path(st)
+							t.t.pos = in.Pos()
+						}
+					}
+				}
+				return
+			}
+			// anything that reads through the reader invalidates what was learnt about it
+			for _, a := range c.Common().Args {
+				if strings.HasSuffix(a.Type().String(), "bufio.Reader") {
+					if f := c.Common().StaticCallee(); f == nil || f.Name() != "Buffered" {
+						st.Clear(bEmpty | bErr)
+					}
+				}
+			}
+		},
+		Branch: func(x *Explorer, st *State, cond ssa.Value, taken bool, from *ssa.BasicBlock) {
+			pol, v := stripNot(cond)
+			truth := taken == pol
+			if _, fv := loadedField(v); fv != nil && fv.Name() == "StreamRequestBody" {
+				if !truth {
+					st.Set(bNotStream)
+				} else {
+					st.Clear(bNotStream)
+				}
+				return
+			}
+			bo, ok := v.(*ssa.BinOp)
+			if !ok {
+				return
+			}
+			if cv, isCall := bo.X.(*ssa.Call); isCall && cv.Call.StaticCallee() != nil && cv.Call.StaticCallee().Name() == "Buffered" && recvTypeName(cv.Call.StaticCallee()) == "Reader" {
+				if k, isK := constInt(bo.Y); isK && k == 0 {
+					empty := (bo.Op == token.EQL) == truth
+					if bo.Op == token.GTR {
+						empty = !truth
+					}
+					if empty {
+						st.Set(bEmpty)
+					} else {
+						st.Clear(bEmpty)
+					}
+				}
+				return
+			}
+			if (bo.Op == token.NEQ || bo.Op == token.EQL) && (isNilConst(bo.Y) || isNilConst(bo.X)) {
+				o := bo.X
+				if isNilConst(bo.X) {
+					o = bo.Y
+				}
+				if strings.HasSuffix(o.Type().String(), "error") {
+					if (bo.Op == token.NEQ) == truth {
+						st.Set(bErr)
+					} else {
+						st.Clear(bErr)
+					}
+				}
+			}
+		},
+	})
+	x.Filter = func(key string) bool {
+		return strings.Contains(key, "StreamRequestBody") || strings.Contains(key, "ReduceMemoryUsage")
+	}
+	x.MaxStates = 2000000
+	x.Run(nil)
+	if x.Aborted || emptyT.n == 0 {
+		r.Undecided("R-reader", "serve loop: releases of the connection reader between requests", "exploration gave no verdict")
+		return
+	}
+	if prop == "C01" {
+		r.Check("R7", "serve loop: the connection reader is released between requests only when it buffers nothing (or the connection ends with an error)", emptyT.bad == 0, p.Pos(emptyT.pos),
+			fmt.Sprintf("%d of %d explored arrivals at releaseReader have neither found br.Buffered() == 0 nor an error: bytes of the next pipelined request that were read ahead are dropped with the reader, and the next read resumes in the middle of a message - body bytes are parsed as a request line", emptyT.bad, emptyT.n), emptyT.wit...)
+	} else {
+		r.Check("R5", "serve loop: the connection reader is released between requests only when request bodies are not streamed (or the connection ends with an error)", streamT.bad == 0, p.Pos(streamT.pos),
+			fmt.Sprintf("%d of %d explored arrivals at releaseReader have not found StreamRequestBody false: the body stream handed to the handler still reads through the released reader, over-reads into the next request, and those bytes are lost when the loop takes a fresh reader", streamT.bad, streamT.n), streamT.wit...)
+	}
 }
